@@ -1,7 +1,9 @@
 // Harness for C12: drives middleware.Retry of the real code (real clock, real back-off library).
 //
 //	REQ retry mr=<int> init=<ns> max=<ns> mul=<p>/<q> rf=<a>/<b> el=<ns> hook=<0|1> log=<0|1> outs=<o0>,… cancel=<j|-> sleep=<j>:<ns>|-
+//	          conc=<M>:<idx>:<stagger ns>|-   (M messages concurrently through one middleware instance; this case reports message idx)
 //	          n=<calls> d=<delays reported to OnRetryHook> ts=<start of call i>,… te=<end of call i>,… tr=<return>
+//	          tq=<when the context was first asked for its deadline/Done after call 0 | ->
 //	OBS n=<calls> hooks=<num>:<delay>,…|- res=<msgs|->/<err|-> time=ok
 //
 // Inputs are everything up to sleep=; the rest of the request is recorded from the run (time stamps in ns since the
@@ -16,9 +18,9 @@ package main
 
 import (
 	"context"
-	"errors"
 	"fmt"
 	"os"
+	"runtime"
 	"strconv"
 	"strings"
 	"sync"
@@ -48,6 +50,9 @@ type tcase struct {
 	cancel     int   // -1 = never
 	sleepAt    int   // -1 = never
 	sleepNs    int64 //
+	concN      int   // messages sent concurrently through one middleware instance (0/1 = a single message)
+	concIdx    int   // which of them this case reports
+	stagger    int64 // start offset between them, ns
 	group      string
 }
 
@@ -61,6 +66,7 @@ type rec struct {
 	hooks  []hookCall
 	ts, te []int64
 	tr     int64
+	tq     int64 // first time the context was asked for its deadline / Done after call 0 (-1: never)
 	msgs   string
 	err    string
 	panicV string
@@ -89,8 +95,12 @@ func (c tcase) inputs() string {
 	if c.logger {
 		lg = 1
 	}
-	return fmt.Sprintf("retry mr=%d init=%d max=%d mul=%d/%d rf=%d/%d el=%d hook=%d log=%d outs=%s cancel=%s sleep=%s",
-		c.mr, c.init, c.max, c.mulP, c.mulQ, c.rfA, c.rfB, c.el, hk, lg, strings.Join(outs, ","), cancel, sleep)
+	conc := "-"
+	if c.concN > 1 {
+		conc = fmt.Sprintf("%d:%d:%d", c.concN, c.concIdx, c.stagger)
+	}
+	return fmt.Sprintf("retry mr=%d init=%d max=%d mul=%d/%d rf=%d/%d el=%d hook=%d log=%d outs=%s cancel=%s sleep=%s conc=%s",
+		c.mr, c.init, c.max, c.mulP, c.mulQ, c.rfA, c.rfB, c.el, hk, lg, strings.Join(outs, ","), cancel, sleep, conc)
 }
 
 func joinI(xs []int64) string {
@@ -109,7 +119,11 @@ func (c tcase) req(r rec) string {
 	for i, h := range r.hooks {
 		d[i] = h.delay
 	}
-	return fmt.Sprintf("%s n=%d d=%s ts=%s te=%s tr=%d", c.inputs(), r.n, joinI(d), joinI(r.ts), joinI(r.te), r.tr)
+	tq := "-"
+	if r.tq >= 0 {
+		tq = strconv.FormatInt(r.tq, 10)
+	}
+	return fmt.Sprintf("%s n=%d d=%s ts=%s te=%s tr=%d tq=%s", c.inputs(), r.n, joinI(d), joinI(r.ts), joinI(r.te), r.tr, tq)
 }
 
 func (r rec) obs() string {
@@ -127,35 +141,64 @@ func (r rec) obs() string {
 	return fmt.Sprintf("n=%d hooks=%s res=%s/%s time=ok", r.n, hk, r.msgs, r.err)
 }
 
-// run executes one case against the real middleware.
-func run(c tcase) (r rec) {
-	ctx, cancel := context.WithCancel(context.Background())
-	defer cancel()
-	msg := message.NewMessage("in", []byte("payload"))
-	msg.SetContext(ctx)
+// obsCtx is the message's context; it notes when the code under test first asks it for its deadline or its Done
+// channel after the first call failed: context.WithTimeout(ctx, MaxElapsedTime) asks for the deadline (after it has read
+// the clock), a select on the bare context asks for Done – either way the MaxElapsedTime budget has started by then.
+type obsCtx struct {
+	context.Context
+	note func()
+}
 
-	errs := make([]error, len(c.outs)+4)
-	for i := range errs {
-		errs[i] = fmt.Errorf("e%d", i)
+func (c obsCtx) Deadline() (time.Time, bool) { c.note(); return c.Context.Deadline() }
+func (c obsCtx) Done() <-chan struct{}       { c.note(); return c.Context.Done() }
+
+// goid: the hook does not say which message it is called for; it runs on the goroutine that handles the message.
+func goid() string {
+	var buf [64]byte
+	f := strings.Fields(string(buf[:runtime.Stack(buf[:], false)]))
+	if len(f) >= 2 {
+		return f[1]
 	}
-	var mu sync.Mutex // the middleware is sequential; the lock only keeps the race detector meaningful
-	var base time.Time
-	calls := 0
+	return "?"
+}
+
+// one message in flight
+type flight struct {
+	r      rec
+	base   time.Time
+	calls  int
+	cancel func()
+	tq     int64
+	errs   []error
+}
+
+// runScenario sends c.concN messages (staggered by c.stagger) through ONE middleware instance wrapping ONE handler
+// and returns what was seen for each of them.
+func runScenario(c tcase) []rec {
+	n := c.concN
+	if n < 1 {
+		n = 1
+	}
+	var mu sync.Mutex
+	byMsg := map[string]*flight{}
+	byGo := map[string]*flight{}
 	h := func(m *message.Message) ([]*message.Message, error) {
 		now := time.Now()
 		mu.Lock()
-		i := calls
-		calls++
+		f := byMsg[m.UUID]
+		byGo[goid()] = f
+		i := f.calls
+		f.calls++
 		if i == 0 {
-			base = now
+			f.base = now
 		}
-		r.ts = append(r.ts, int64(now.Sub(base)))
+		f.r.ts = append(f.r.ts, int64(now.Sub(f.base)))
 		mu.Unlock()
 		if i == c.sleepAt {
 			time.Sleep(time.Duration(c.sleepNs))
 		}
 		if i == c.cancel {
-			cancel()
+			f.cancel()
 		}
 		o := outcome{ok: false}
 		if i < len(c.outs) {
@@ -167,10 +210,10 @@ func run(c tcase) (r rec) {
 		}
 		var err error
 		if !o.ok {
-			err = errs[i%len(errs)]
+			err = f.errs[i%len(f.errs)]
 		}
 		mu.Lock()
-		r.te = append(r.te, int64(time.Since(base)))
+		f.r.te = append(f.r.te, int64(time.Since(f.base)))
 		mu.Unlock()
 		return produced, err
 	}
@@ -188,57 +231,139 @@ func run(c tcase) (r rec) {
 	if c.hook {
 		mw.OnRetryHook = func(retryNum int, delay time.Duration) {
 			mu.Lock()
-			r.hooks = append(r.hooks, hookCall{retryNum, int64(delay)})
+			if f := byGo[goid()]; f != nil {
+				f.r.hooks = append(f.r.hooks, hookCall{retryNum, int64(delay)})
+			}
 			mu.Unlock()
 		}
 	}
-	var produced []*message.Message
-	var err error
-	func() {
-		defer func() {
-			if v := recover(); v != nil {
-				r.panicV = wh.PanicText(v)
+	wrapped := mw.Middleware(h) // one instance for all messages of the scenario
+	flights := make([]*flight, n)
+	msgs := make([]*message.Message, n)
+	for k := 0; k < n; k++ {
+		f := &flight{tq: -1}
+		f.errs = make([]error, len(c.outs)+4)
+		for i := range f.errs {
+			f.errs[i] = fmt.Errorf("e%d", i)
+		}
+		ctx, cancel := context.WithCancel(context.Background())
+		f.cancel = cancel
+		msg := message.NewMessage(fmt.Sprintf("m%d", k), []byte("payload"))
+		msg.SetContext(obsCtx{ctx, func() {
+			mu.Lock()
+			if f.calls > 0 && f.tq < 0 {
+				f.tq = int64(time.Since(f.base))
 			}
+			mu.Unlock()
+		}})
+		flights[k], msgs[k] = f, msg
+		byMsg[msg.UUID] = f
+	}
+	var wg sync.WaitGroup
+	for k := 0; k < n; k++ {
+		k := k
+		wg.Add(1)
+		go func() {
+			defer wg.Done()
+			f := flights[k]
+			time.Sleep(time.Duration(int64(k) * c.stagger))
+			var produced []*message.Message
+			var err error
+			func() {
+				defer func() {
+					if v := recover(); v != nil {
+						f.r.panicV = wh.PanicText(v)
+					}
+				}()
+				produced, err = wrapped(msgs[k])
+			}()
+			mu.Lock()
+			defer mu.Unlock()
+			r := &f.r
+			r.tr = int64(time.Since(f.base))
+			r.tq = f.tq
+			r.n = f.calls
+			if len(produced) == 0 {
+				r.msgs = "-"
+			} else {
+				p := make([]string, len(produced))
+				for i, m := range produced {
+					p[i] = m.UUID
+				}
+				r.msgs = strings.Join(p, "+")
+			}
+			r.err = "?"
+			if err == nil {
+				r.err = "-"
+			} else {
+				for i, e := range f.errs {
+					if err == e {
+						r.err = "e" + strconv.Itoa(i)
+					}
+				}
+				if r.err == "?" {
+					r.err = "?" + wh.HexS(err.Error())
+				}
+			}
+			f.cancel()
 		}()
-		produced, err = mw.Middleware(h)(msg)
-	}()
-	r.tr = int64(time.Since(base))
-	r.n = calls
-	if len(produced) == 0 {
-		r.msgs = "-"
-	} else {
-		p := make([]string, len(produced))
-		for i, m := range produced {
-			p[i] = m.UUID
-		}
-		r.msgs = strings.Join(p, "+")
 	}
-	r.err = "?"
-	if err == nil {
-		r.err = "-"
-	} else {
-		for i, e := range errs {
-			if errors.Is(err, e) && err == e {
-				r.err = "e" + strconv.Itoa(i)
-			}
-		}
-		if r.err == "?" {
-			r.err = "?" + wh.HexS(err.Error())
-		}
+	wg.Wait()
+	out := make([]rec, n)
+	for k := range flights {
+		out[k] = flights[k].r
 	}
-	return r
+	return out
 }
 
-// runFiltered re-runs a cancellation case when a call was made after the cancelling one: a `select` whose two
-// alternatives are both ready may legitimately take the timer, which needs a stall of the goroutine longer than the
-// wait (>= 10 ms in these cases); three such stalls in a row are not scheduling noise.
-func runFiltered(c tcase, out *wh.Out) rec {
-	r := run(c)
-	for try := 0; try < 2 && c.cancel >= 0 && r.n > c.cancel+1; try++ {
-		out.Count("rerun.call_after_cancel")
-		r = run(c)
+// A select whose two alternatives are both ready may legitimately take the timer; for that the goroutine must have
+// stalled for the whole wait (>= 10 ms in the cancellation cases) between creating the timer and entering the select,
+// or the delivery of the context's expiry must have been later than a timer due >= 25 ms after it. suspicious says that a
+// run shows a call which only such a stall explains; runFiltered re-runs such a scenario twice before it is reported.
+const budgetSlack = 25 * int64(time.Millisecond)
+
+func (c tcase) suspicious(r rec) bool {
+	if c.cancel >= 0 && r.n > c.cancel+1 {
+		return true
 	}
-	return r
+	if c.el > 0 {
+		for k := 1; k < r.n && k < len(r.ts) && k-1 < len(r.te); k++ {
+			var d, d1 int64
+			if k-1 < len(r.hooks) {
+				d = r.hooks[k-1].delay
+			}
+			if len(r.hooks) > 0 {
+				d1 = r.hooks[0].delay
+			}
+			bound := r.tq
+			if bound < 0 {
+				if k < 2 {
+					continue
+				}
+				bound = r.ts[1] - d1
+			}
+			if r.te[k-1]+d > bound+c.el+budgetSlack {
+				return true
+			}
+		}
+	}
+	return false
+}
+
+func runFiltered(c tcase, out *wh.Out) []rec {
+	rs := runScenario(c)
+	for try := 0; try < 2; try++ {
+		sus := false
+		for _, r := range rs {
+			sus = sus || c.suspicious(r)
+		}
+		if !sus {
+			break
+		}
+		out.Count("rerun.call_after_context_end")
+		rs = runScenario(c)
+	}
+	return rs
 }
 
 func parseCase(line string) (tcase, error) {
@@ -308,7 +433,21 @@ func parseCase(line string) (tcase, error) {
 					c.sleepNs, err = strconv.ParseInt(p[1], 10, 64)
 				}
 			}
-		case "n", "d", "ts", "te", "tr": // recorded part of an earlier run: taken anew
+		case "conc":
+			if kv[1] != "-" {
+				p := strings.Split(kv[1], ":")
+				if len(p) != 3 {
+					return c, fmt.Errorf("conc %q", kv[1])
+				}
+				c.concN, err = strconv.Atoi(p[0])
+				if err == nil {
+					c.concIdx, err = strconv.Atoi(p[1])
+				}
+				if err == nil {
+					c.stagger, err = strconv.ParseInt(p[2], 10, 64)
+				}
+			}
+		case "n", "d", "ts", "te", "tr", "tq": // recorded part of an earlier run: taken anew
 		default:
 			return c, fmt.Errorf("key %q", kv[0])
 		}
@@ -481,6 +620,50 @@ func generate(a wh.Args) []tcase {
 			outs: outsFor(t, t, nouts(rng)), cancel: -1, sleepAt: -1, group: "elapsed.edge"})
 	}
 
+	// MaxElapsedTime running out DURING a wait, decided by counting: the wait before call k is far longer (>= 40 ms) than
+	// what is left of the budget, so the context's deadline wakes Retry long before the timer and call k is never made.
+	// Lateness cannot produce the extra call (it only makes everything later); the model predicts the number of calls.
+	type ew struct {
+		init, max, el int64
+		mulP          int64
+	}
+	ews := []ew{
+		{300 * ms, 300 * ms, 60 * ms, 1},  // first wait 300 ms, budget 60 ms: no retry at all
+		{20 * ms, 1000 * ms, 100 * ms, 2}, // waits 20, 40, (80): two retries, the third wait is cut at 100 ms
+		{10 * ms, 1000 * ms, 70 * ms, 3},  // waits 10, 30, (90): two retries
+		{25 * ms, 25 * ms, 90 * ms, 1},    // waits 25, 25, 25, (25 -> due at 100, only 10 ms late: either outcome is accepted)
+		{150 * ms, 150 * ms, 50 * ms, 1},
+	}
+	for i, e := range ews {
+		reps := 1
+		if thorough {
+			reps = 4
+		}
+		for rep := 0; rep < reps; rep++ {
+			mr := 4 + rng.Intn(5)
+			t := calls(mr)
+			cs = append(cs, tcase{mr: mr, init: e.init, max: e.max, mulP: e.mulP, mulQ: 1, rfA: 0, rfB: 1, el: e.el, hook: true,
+				outs: outsFor(t, []int{t, t - 1}[(i+rep)%2], nouts(rng)), cancel: -1, sleepAt: -1, group: "elapsed.wait"})
+		}
+	}
+
+	// several messages failing concurrently through ONE middleware instance (same Retry value, same wrapped handler),
+	// staggered so that one message starts retrying while the others are deep in their interval sequence; every message
+	// must follow its own back-off schedule (RandomizationFactor 0: exactly init * mult^(k-1))
+	nConc := 6
+	if thorough {
+		nConc = 30
+	}
+	for i := 0; i < nConc; i++ {
+		mr := 3 + rng.Intn(3)
+		t := calls(mr)
+		init := []int64{4 * ms, 6 * ms, 10 * ms}[rng.Intn(3)]
+		rf := [][2]int64{{0, 1}, {0, 1}, {1, 2}}[rng.Intn(3)]
+		cs = append(cs, tcase{mr: mr, init: init, max: 1000 * ms, mulP: 2, mulQ: 1, rfA: rf[0], rfB: rf[1], hook: true,
+			outs: outsFor(t, []int{t, t, t - 1}[rng.Intn(3)], nouts(rng)), cancel: -1, sleepAt: -1,
+			concN: 2 + rng.Intn(3), stagger: init*2 + init/2, group: "concurrent"})
+	}
+
 	// (5) malformed / unusual configurations: InitialInterval > MaxInterval, Multiplier < 1, MaxInterval 0, MaxRetries <= 0 with waits
 	odd := []tcase{
 		{mr: 3, init: 2 * ms, max: 1 * ms, mulP: 2, mulQ: 1, rfA: 0, rfB: 1},
@@ -514,8 +697,14 @@ func main() {
 			out.Case(a.Replay, "unparsable")
 			return
 		}
-		r := runFiltered(c, out)
-		out.Case(c.req(r), r.obs())
+		for k, r := range runFiltered(c, out) {
+			ck := c
+			ck.concIdx = k
+			if c.concN > 1 && k != c.concIdx {
+				continue // the replayed request names one message of the scenario
+			}
+			out.Case(ck.req(r), r.obs())
+		}
 		return
 	}
 	cs := generate(a)
@@ -523,7 +712,7 @@ func main() {
 	for i := range cs {
 		cs[i].logger = lrng.Intn(3) == 0
 	}
-	recs := make([]rec, len(cs))
+	recs := make([][]rec, len(cs))
 	var wg sync.WaitGroup
 	sem := make(chan struct{}, 48) // the cases mostly sleep
 	for i := range cs {
@@ -537,29 +726,35 @@ func main() {
 		}()
 	}
 	wg.Wait()
-	for i, c := range cs {
-		r := recs[i]
-		out.Case(c.req(r), r.obs())
-		out.Count("group." + c.group)
-		out.Count("calls." + wh.Itoa(r.n))
-		out.Add("hook_calls", len(r.hooks))
-		switch {
-		case r.panicV != "":
-			out.Count("result.panic")
-		case r.err == "-":
-			out.Count("result.success")
-		case r.msgs == "-":
-			out.Count("result.error")
-		default:
-			out.Count("result.error_with_messages")
+	for i, c0 := range cs {
+		for k, r := range recs[i] {
+			c := c0
+			c.concIdx = k
+			out.Case(c.req(r), r.obs())
+			out.Count("group." + c.group)
+			out.Count("calls." + wh.Itoa(r.n))
+			out.Add("hook_calls", len(r.hooks))
+			switch {
+			case r.panicV != "":
+				out.Count("result.panic")
+			case r.err == "-":
+				out.Count("result.success")
+			case r.msgs == "-":
+				out.Count("result.error")
+			default:
+				out.Count("result.error_with_messages")
+			}
+			if r.err != "-" && r.n < calls(c.mr) {
+				out.Count("gave_up_early." + c.group)
+			}
+			if c.logger {
+				out.Count("logger_set")
+			}
+			if c.concN > 1 {
+				out.Count("concurrent_messages")
+			}
+			out.Count(fmt.Sprintf("mul.%d/%d", c.mulP, c.mulQ))
+			out.Count(fmt.Sprintf("rf.%d/%d", c.rfA, c.rfB))
 		}
-		if r.err != "-" && r.n < calls(c.mr) {
-			out.Count("gave_up_early." + c.group)
-		}
-		if c.logger {
-			out.Count("logger_set")
-		}
-		out.Count(fmt.Sprintf("mul.%d/%d", c.mulP, c.mulQ))
-		out.Count(fmt.Sprintf("rf.%d/%d", c.rfA, c.rfB))
 	}
 }
